@@ -8,14 +8,14 @@ for ID in "$@"; do
   P=${ID%%-*}; DIR=$D/seeded/$ID; TAG=rc_${ID}_$$
   WT=/tmp/ev_wt_$TAG; EV=/tmp/ev_verif_$TAG
   [ -f $DIR/patch.diff ] || { echo "$ID: no patch"; continue; }
-  /root/mut/mkwt.sh $WT >/dev/null || { echo "$ID: worktree failed"; continue; }
-  if ! git -C $WT apply "$DIR/patch.diff" 2>/dev/null; then echo "$ID: PATCH DOES NOT APPLY"; /root/mut/rmwt.sh $WT >/dev/null 2>&1; continue; fi
+  $D/tools/mut/mkwt.sh $WT >/dev/null || { echo "$ID: worktree failed"; continue; }
+  if ! git -C $WT apply "$DIR/patch.diff" 2>/dev/null; then echo "$ID: PATCH DOES NOT APPLY"; $D/tools/mut/rmwt.sh $WT >/dev/null 2>&1; continue; fi
   git -C $WT diff --name-only | grep -q '\.pxd$' && find $WT/cherab -name '*.pxd' -newer $WT/setup.py -exec touch {} +
-  (cd $WT && /venv/bin/python setup.py build_ext --inplace -j4 > /tmp/ev_build_$TAG.log 2>&1) || { echo "$ID: DOES NOT COMPILE"; /root/mut/rmwt.sh $WT >/dev/null 2>&1; continue; }
+  (cd $WT && /venv/bin/python setup.py build_ext --inplace -j4 > /tmp/ev_build_$TAG.log 2>&1) || { echo "$ID: DOES NOT COMPILE"; $D/tools/mut/rmwt.sh $WT >/dev/null 2>&1; continue; }
   mkdir -p $EV
   rsync -a --delete --exclude .git --exclude replays --exclude seeded "$D"/ $EV/
   grep -rl "/repo" $EV/harness $EV/setup.sh 2>/dev/null | xargs -r sed -i -E "s#/repo([^a-zA-Z0-9_]|$)#$WT\\1#g"
-  ( cd $EV && timeout 3000 env PYTHONPATH=/root/wtsite CHERAB_WT=$WT VERIF_SEED=${VERIF_SEED:-0} ./check $P --tier quick > /tmp/ev_out_$TAG.log 2>&1 ); RC=$?
+  ( cd $EV && timeout 3000 env PYTHONPATH=$D/tools/mut/wtsite CHERAB_WT=$WT VERIF_SEED=${VERIF_SEED:-0} ./check $P --tier quick > /tmp/ev_out_$TAG.log 2>&1 ); RC=$?
   /venv/bin/python - "$DIR" "$RC" /tmp/ev_out_$TAG.log "$(git -C /repo rev-parse --short HEAD)" "$(git -C $D rev-parse --short HEAD)" <<'PY'
 import json, sys, re, time
 d, rc, log, rh, vh = sys.argv[1:6]
@@ -28,6 +28,6 @@ json.dump(dict(date=time.strftime('%Y-%m-%d'), repo_head=rh, verif_head=vh, chec
                signatures=sigs, verdict=verdict), open(d + '/recheck.json', 'w'), indent=1)
 print(d.split('/')[-1], rc, verdict, '|', (sigs[0][:90] if sigs else ''))
 PY
-  /root/mut/rmwt.sh $WT >/dev/null 2>&1
+  $D/tools/mut/rmwt.sh $WT >/dev/null 2>&1
   rm -rf $EV /tmp/ev_out_$TAG.log /tmp/ev_build_$TAG.log
 done
